@@ -32,6 +32,10 @@ BOUND = 2 ** 62
 TENSOR_T = r'tensor_(t|base_t|mem_t|map_t|cmap_t|vector_storage_t|marray_storage_t|carray_storage_t)\b|indices_(c?map_)?t\b'
 
 
+def _is_iter_arith(wp, n):
+    return n.get('kind') == 'BinaryOperator' and n.get('opcode') in ('+', '-') and 'iterator' in (qual(n.get('type')) + n.get('type', {}).get('qualType', ''))
+
+
 def look(n):
     """look through casts, temporaries, parens and one-argument copy constructions"""
     while True:
@@ -70,7 +74,7 @@ def times(a, b):
 
 class TWP(IdEnvWP):
     def __init__(self, name, **kw):
-        super().__init__(name, calls=CALLS, members=MEMBERS, hooks=[expr_hook], **kw)
+        super().__init__(name, calls=CALLS, members=MEMBERS, hooks=[lambda wp, n: iter_hook(wp, n) if _is_iter_arith(wp, n) else None, expr_hook], **kw)
         self.decl_hooks = (decl_hook, decl_array_hook)
         self.stmt_hooks = ()
         self.tens = {}        # tensor id -> {'dims': array name, 'buf': buffer id, 'off': Int term}
@@ -895,9 +899,10 @@ CALLS = [
     (r'^operator=\|std::array', h_array_assign), (r'^operator=\|.*Eigen::', h_view_assign),
     (r'^operator\(\)\|', h_call_operator),
 ]
-from wplib import h_std_get, h_array_fill  # noqa: E402
+from wplib import h_std_get, h_array_fill, STD_ARRAY_MEMBERS, STD_NUMERIC_CALLS, iter_hook  # noqa: E402
 CALLS[0] = (r'^get\|', h_std_get)
 CALLS.insert(0, (r'^get\|void \(tensor_cmap_t', h_integral_get))
+CALLS += STD_NUMERIC_CALLS          # std::accumulate over a dims array, exact (accumulator type = type of init)
 
 MEMBERS = [
     (r'^fill\|std::array', h_array_fill),
@@ -924,6 +929,7 @@ def m__resize(wp, n, args, obj):
 
 
 MEMBERS[-1] = (r'^_resize\|', m__resize)
+MEMBERS += STD_ARRAY_MEMBERS
 
 
 def m_eigen_resize(wp, n, args, obj):
